@@ -124,6 +124,12 @@ async def play(lab: L.Lab, case: dict, port: int, bind_port: int | None, ports: 
             ok = await cur.wait_message(args[0], args[1] if len(args) > 1 else 10.0, args[2] if len(args) > 2 else 1) if cur else False
             if not ok:
                 notes.append((i, f'no-message-{args[0]}'))
+        elif op == 'wait_more':
+            # args[2] MORE messages of type args[0] than have been received so far
+            base = sum(1 for t, _ in cur.messages()[0] if t == args[0]) if cur else 0
+            ok = await cur.wait_message(args[0], args[1], base + args[2]) if cur else False
+            if not ok:
+                notes.append((i, f'no-more-message-{args[0]}'))
         elif op == 'wait_closed':
             ok = await cur.wait_closed(args[0] if args else 10.0) if cur else False
             if not ok:
